@@ -81,7 +81,19 @@ def main():
                 print("      %s" % l)
             if v["rc"] not in (0, 1):
                 print("      %s: rc=%s" % (p, v["rc"]))
-    json.dump(res, open(os.path.join(ROOT, "evidence", "selftest.json"), "w"), indent=1)
+    out = os.path.join(ROOT, "evidence", "selftest.json")
+    if args:
+        # a partial run updates the entries it touched
+        try:
+            old = json.load(open(out))
+        except Exception:  # noqa
+            old = {}
+        old.update(res)
+        res = old
+    # (entries of patches that no longer exist are dropped)
+    present = set(n for n, _p, _x in patches)
+    res = dict((k, v) for k, v in res.items() if k in present)
+    json.dump(res, open(out, "w"), indent=1)
     return 0
 
 
